@@ -102,6 +102,9 @@ func genDispatch(c *ctx) string {
 	b.WriteString("def dirArgWrapperAccepted : Bool := " + dirArgTypeTest(c) + "\n")
 	b.WriteString("def descRaw : Bool := " + descForm(c) + "\n")
 	b.WriteString("def assureOnce : Bool := " + assureSchemaForm(c) + "\n")
+	ufc, inb := bindingForms(c)
+	b.WriteString("def unionFirstCome : Bool := " + ufc + "\n")
+	b.WriteString("def ifaceNeedsBound : Bool := " + inb + "\n")
 	b.WriteString("def shallowRollback : Bool := " + rollbackDepthForm(c) + "\n")
 	b.WriteString("def inputExtendMapOrder : Bool := " + inputExtendForm(c) + "\n")
 	tod, ter := toolForms(c)
@@ -654,4 +657,58 @@ func rollbackDepthForm(c *ctx) string {
 		return "false"
 	}
 	return unknown("addExtends/ParseReader undo wiring", c.pos(ae))
+}
+
+// bindingForms reads the two places where the reflection strategy finds the object type of a value at an
+// abstract-typed position.  unionFirstCome (D51): the member loop of the `*Union` arm of (*Root).resolve gives up
+// at the first member that is neither bound nor binds the value by name, or goes on and reports that only when
+// no member matched.  ifaceNeedsBound (D47): (*Root).getReflectType only finds object types already bound to
+// the value's Go type, or binds unbound ones through metaCheck as the union arm does.  Whole-body matches.
+func bindingForms(c *ctx) (unionFirstCome, ifaceNeedsBound string) {
+	unionFirstCome, ifaceNeedsBound = unknown("resolve union arm", "resolve.go"), unknown("getReflectType", "root.go")
+	norm := func(n ast.Node) string {
+		t := regexp.MustCompile(`(?m)//.*$`).ReplaceAllString(c.src(n), "")
+		return regexp.MustCompile(`\s+`).ReplaceAllString(t, " ")
+	}
+	if fd := c.funcs["Root.getReflectType"]; fd != nil {
+		switch norm(fd.Body) {
+		case `{ for _, t := range root.types.list { o, _ := t.(*Object) if o != nil { o.mu.Lock() if o.meta == meta { obj = o o.mu.Unlock() break } o.mu.Unlock() } } return }`:
+			ifaceNeedsBound = "true"
+		case `{ for _, t := range root.types.list { if o, _ := t.(*Object); o != nil { if m, _ := o.metaCheck(meta); m == meta { obj = o break } } } return }`:
+			ifaceNeedsBound = "false"
+		default:
+			ifaceNeedsBound = unknown("getReflectType body", c.pos(fd))
+		}
+	}
+	fd := c.funcs["Root.resolve"]
+	if fd == nil {
+		return
+	}
+	ast.Inspect(fd.Body, func(n ast.Node) bool {
+		ts, ok := n.(*ast.TypeSwitchStmt)
+		if !ok {
+			return true
+		}
+		for _, cl := range ts.Body.List {
+			cc := cl.(*ast.CaseClause)
+			if len(cc.List) != 1 || c.src(cc.List[0]) != "*Union" {
+				continue
+			}
+			var parts []string
+			for _, st := range cc.Body {
+				parts = append(parts, norm(st))
+			}
+			const head = `resMap := map[string]interface{}{} ; result = resMap ; objType := reflect.TypeOf(obj) ; `
+			switch strings.Join(parts, " ; ") {
+			case head + `for _, m := range tt.Members { if ot, _ := m.(*Object); ot != nil { if meta, err := ot.metaCheck(objType); err != nil { return nil, []error{err} } else if objType == meta { result, ea = root.resolveFieldSels(obj, vars, field, m, depth-1) break } } }`:
+				unionFirstCome = "true"
+			case head + `var unbound error ; for _, m := range tt.Members { if ot, _ := m.(*Object); ot != nil { if meta, err := ot.metaCheck(objType); err != nil { if unbound == nil { unbound = err } } else if objType == meta { result, ea = root.resolveFieldSels(obj, vars, field, m, depth-1) unbound = nil break } } } ; if unbound != nil { return nil, []error{unbound} }`:
+				unionFirstCome = "false"
+			default:
+				unionFirstCome = unknown("resolve union arm body", c.pos(cc))
+			}
+		}
+		return false
+	})
+	return
 }
